@@ -53,6 +53,53 @@ int main(void) {
             }
             if (ZSTD_isError(r)) printf("err %s\n", zv_errclass(r)); else { zv_puthex(out, r); putchar('\n'); }
             free(in); free(out); free(d);
+        } else if (!strcmp(op, "decs")) {
+            /* decs <cap> <hex> <in-chunks csv> <out-chunks csv> [trace] : ZSTD_decompressStream under a segmentation (lists are cycled) */
+            size_t cap = (size_t)strtoull(strtok(NULL, " "), NULL, 10), n; unsigned char* in = zv_unhex(strtok(NULL, " "), &n);
+            char* ins = strtok(NULL, " "); char* outs = strtok(NULL, " "); char* tr = strtok(NULL, " ");
+            size_t ic[64], oc[64]; int ni = 0, no = 0, ii = 0, oi = 0; char* sv; char* t;
+            unsigned char* out = (unsigned char*)malloc(cap ? cap : 1); size_t consumed = 0, produced = 0, r = 1; int calls = 0, idle = 0;
+            char zeros[2048]; size_t zl = 0; zeros[0] = 0;
+            for (t = strtok_r(ins, ",", &sv); t && ni < 64; t = strtok_r(NULL, ",", &sv)) ic[ni++] = (size_t)strtoull(t, NULL, 10);
+            for (t = strtok_r(outs, ",", &sv); t && no < 64; t = strtok_r(NULL, ",", &sv)) oc[no++] = (size_t)strtoull(t, NULL, 10);
+            ZSTD_DCtx_reset(dctx, ZSTD_reset_session_only);
+            if (tr) printf("trace");
+            while (calls < 2000000) {
+                size_t isz = ic[ii++ % ni], osz = oc[oi++ % no]; ZSTD_inBuffer ib; ZSTD_outBuffer ob;
+                if (isz > n - consumed) isz = n - consumed;
+                if (osz > cap - produced) osz = cap - produced;
+                ib.src = in + consumed; ib.size = isz; ib.pos = 0; ob.dst = out + produced; ob.size = osz; ob.pos = 0;
+                r = ZSTD_decompressStream(dctx, &ob, &ib); calls++;
+                if (tr) printf(" %zu/%zu:%zu/%zu:%s", ib.pos, isz, ob.pos, osz, ZSTD_isError(r) ? "E" : r == 0 ? "0" : "+");
+                if (ZSTD_isError(r)) break;
+                consumed += ib.pos; produced += ob.pos;
+                if (r == 0 && zl + 48 < sizeof zeros) zl += (size_t)sprintf(zeros + zl, "%s%zu:%zu", zl ? ";" : "", consumed, produced);
+                if (ib.pos == 0 && ob.pos == 0) { if (consumed == n && (osz > 0 || produced == cap)) { if (++idle >= 2) break; } else if (++idle > 40) break; } else idle = 0;
+            }
+            if (tr) printf("\n");
+            if (ZSTD_isError(r)) printf("err %s calls=%d consumed=%zu produced=%zu zeros=%s\n", zv_errclass(r), calls, consumed, produced, zl ? zeros : "-");
+            else printf("ok %zu %016llx calls=%d consumed=%zu zeros=%s last=%s\n", produced, (unsigned long long)XXH64(out, produced, 0), calls, consumed, zl ? zeros : "-", r == 0 ? "0" : "+");
+            free(in); free(out);
+        } else if (!strcmp(op, "pledge")) {
+            /* pledge <pledged|-1> <total> <chunks csv> <endmode: 0 end-with-last-chunk, 1 separate end call, 2 endStream legacy> */
+            long long pl = atoll(strtok(NULL, " ")); size_t total = (size_t)strtoull(strtok(NULL, " "), NULL, 10); char* cs = strtok(NULL, " "); int mode = atoi(strtok(NULL, " "));
+            size_t ch[64]; int nc = 0, k; char* sv; char* t; unsigned char* src = (unsigned char*)malloc(total + 1); size_t cap = ZSTD_compressBound(total) + 1024;
+            unsigned char* out = (unsigned char*)malloc(cap); size_t fed = 0, r = 0; ZSTD_outBuffer ob; size_t i; int failedAt = -1;
+            for (i = 0; i < total; i++) src[i] = (unsigned char)(i * 31 + (i >> 7));
+            for (t = strtok_r(cs, ",", &sv); t && nc < 64; t = strtok_r(NULL, ",", &sv)) ch[nc++] = (size_t)strtoull(t, NULL, 10);
+            ZSTD_CCtx_reset(cctx, ZSTD_reset_session_and_parameters);
+            if (pl >= 0) r = ZSTD_CCtx_setPledgedSrcSize(cctx, (unsigned long long)pl);
+            ob.dst = out; ob.size = cap; ob.pos = 0;
+            for (k = 0; k < nc && !ZSTD_isError(r); k++) {
+                ZSTD_inBuffer ib; int last = (k == nc - 1); ib.src = src + fed; ib.size = ch[k] > total - fed ? total - fed : ch[k]; ib.pos = 0;
+                do { r = ZSTD_compressStream2(cctx, &ob, &ib, (last && mode == 0) ? ZSTD_e_end : ZSTD_e_continue); } while (!ZSTD_isError(r) && (ib.pos < ib.size || (last && mode == 0 && r != 0)));
+                fed += ib.pos; if (ZSTD_isError(r)) failedAt = k;
+            }
+            if (!ZSTD_isError(r) && mode == 1) { ZSTD_inBuffer ib = { src, 0, 0 }; do { r = ZSTD_compressStream2(cctx, &ob, &ib, ZSTD_e_end); } while (!ZSTD_isError(r) && r != 0); if (ZSTD_isError(r)) failedAt = nc; }
+            if (!ZSTD_isError(r) && mode == 2) { do { r = ZSTD_endStream(cctx, &ob); } while (!ZSTD_isError(r) && r != 0); if (ZSTD_isError(r)) failedAt = nc; }
+            if (ZSTD_isError(r)) printf("err %s at=%d fed=%zu\n", zv_errclass(r), failedAt, fed);
+            else { ZSTD_frameHeader h; ZSTD_getFrameHeader(&h, out, ob.pos); printf("ok fed=%zu fcs=%lld\n", fed, h.frameContentSize == ZSTD_CONTENTSIZE_UNKNOWN ? -1LL : (long long)h.frameContentSize); }
+            free(src); free(out);
         } else if (!strcmp(op, "xxh")) {
             size_t n; unsigned char* in = zv_unhex(strtok(NULL, " "), &n); printf("ok %zu %016llx\n", n, (unsigned long long)XXH64(in, n, 0)); free(in);
         } else if (!strcmp(op, "fsize")) {
